@@ -66,15 +66,45 @@ type schedExec struct {
 	stopped  bool
 	stopCalled bool
 	stops    map[int]chan struct{} // concurrent Stop callers
+
+	role map[int64]roleT     // goroutine -> split Get / Set caller it runs
+	gets map[int]*pendingGet // Gets parked between map read and clock read
+	sets map[int]*pendingSet // Sets parked between clock read and store
+}
+
+type roleT struct {
+	kind string // "get" | "set"
+	id   int
+}
+
+type pendingGet struct {
+	key       string
+	ev        *parkEvent
+	done      chan string
+	recAtRead *setRec // monitor: the key's record when the Get read the map
+	early     string  // the key was absent: Get returned without reading the clock
+}
+
+type pendingSet struct {
+	key  string
+	val  int
+	ttl  int64
+	at   time.Time // clock value the Set read
+	ev   *parkEvent
+	done chan string
 }
 
 func newSchedExec(maxTTL int64, iv time.Duration, res *lib.Result, cs *Case) *schedExec {
 	x := &schedExec{res: res, cs: cs, reg: map[int64]int{}, parkCh: make(chan *parkEvent, 16),
 		parked: map[int]*parkEvent{}, done: map[int]chan string{}, snapGen: map[int]map[string]int{},
-		stops: map[int]chan struct{}{}}
+		stops: map[int]chan struct{}{}, role: map[int64]roleT{}, gets: map[int]*pendingGet{}, sets: map[int]*pendingSet{}}
 	x.clk = ttlcache.NewVerifClock(t0)
 	x.mon = newMonitor(maxTTL, res, cs)
 	verifhook.Set(x.hook)
+	before := func() { x.clockHook("get") } // a Get has read the map and is about to read the clock
+	after := func() { x.clockHook("set") }  // a Set has read the clock and is about to store
+	x.clk.NowHook.Store(&before)
+	x.clk.AfterNowHook.Store(&after)
 	x.c = ttlcache.VerifNewCache[int](ttlcache.CacheOptions{MaxTTL: maxTTL, CleanupInterval: iv}, x.clk)
 	if !waitTicker(x.clk) {
 		res.Note("sched: the cleaner goroutine never created its ticker")
@@ -99,6 +129,26 @@ func (x *schedExec) hook(name string, args ...any) {
 	case <-ev.release:
 	case <-time.After(20 * time.Second):
 		x.res.Note("hook: cleaner " + strconv.Itoa(id) + " was never released (harness problem)")
+	}
+}
+
+// clockHook parks the goroutine of a split Get (before its clock read) or Set (after it).
+func (x *schedExec) clockHook(kind string) {
+	x.mu.Lock()
+	r, ok := x.role[goid()]
+	if ok && r.kind == kind {
+		delete(x.role, goid()) // park once
+	}
+	x.mu.Unlock()
+	if !ok || r.kind != kind {
+		return
+	}
+	ev := &parkEvent{id: r.id, kind: kind, release: make(chan struct{})}
+	x.parkCh <- ev
+	select {
+	case <-ev.release:
+	case <-time.After(20 * time.Second):
+		x.res.Note(kind + " caller was never released (harness problem)")
 	}
 }
 
@@ -219,8 +269,24 @@ func (x *schedExec) exec(line string) string {
 				done <- "ok"
 			}()
 			<-ready
-			ev, ok := x.waitPark(id)
-			if !ok {
+			var ev *parkEvent
+			select {
+			case ev = <-x.parkCh:
+				if ev.id != id {
+					x.res.Note(fmt.Sprintf("sched: expected cleaner %d at the hook, got %d", id, ev.id))
+				}
+				x.parked[ev.id] = ev
+			case out := <-done:
+				// the call returned without ever reaching the point between snapshot and bulk delete
+				delete(x.done, id)
+				if kind == "reset" {
+					x.mon.onReset() // it returned: by the statement everything set before is "reset since"
+					if d := x.c.VerifDump(); len(d) > 0 {
+						x.res.Violate("reset-left-entries", fmt.Sprintf("Reset returned (%s) without snapshotting although %d entries are stored (another sweep in flight: %v)", out, len(d), x.bgParked || len(x.parked) > 0), x.cs)
+					}
+				}
+				return "returned-without-snapshot"
+			case <-time.After(3 * time.Second):
 				return "timeout"
 			}
 			x.noteSnapshot(id, ev)
@@ -280,6 +346,138 @@ func (x *schedExec) exec(line string) string {
 			}
 			x.res.Hit("op:bgfinish")
 			return "ok"
+		case "gbegin": // a Get parked between its map read and its clock read
+			id64, ok := kv.i64("id")
+			id := int(id64)
+			k := kv["k"]
+			if !ok || id <= 0 || x.gets[id] != nil {
+				return "error"
+			}
+			pg := &pendingGet{key: k, done: make(chan string, 1), recAtRead: x.mon.last[k]}
+			ready := make(chan struct{})
+			go func() {
+				defer func() {
+					if r := recover(); r != nil {
+						pg.done <- "panic"
+					}
+				}()
+				x.mu.Lock()
+				x.role[goid()] = roleT{"get", id}
+				x.mu.Unlock()
+				close(ready)
+				v, hit := x.c.Get(k)
+				if hit {
+					pg.done <- "hit v=" + strconv.Itoa(v)
+				} else {
+					pg.done <- "miss"
+				}
+			}()
+			<-ready
+			select {
+			case ev := <-x.parkCh:
+				if ev.kind != "get" || ev.id != id {
+					x.res.Note(fmt.Sprintf("sched: expected Get %d at the clock, got %s %d", id, ev.kind, ev.id))
+				}
+				pg.ev = ev
+			case out := <-pg.done:
+				// `!ok ||` short-circuits: with the key absent Get never reads the clock
+				pg.early = out
+				x.mu.Lock()
+				for g, r := range x.role {
+					if r.kind == "get" && r.id == id {
+						delete(x.role, g)
+					}
+				}
+				x.mu.Unlock()
+				x.res.Hit("op:gbegin-key-absent(no clock read)")
+			case <-time.After(3 * time.Second):
+				return "timeout"
+			}
+			x.gets[id] = pg
+			x.res.Hit("op:gbegin")
+			return "ok"
+		case "gend":
+			id64, ok := kv.i64("id")
+			pg := x.gets[int(id64)]
+			if !ok || pg == nil || pg.key != kv["k"] {
+				return "error"
+			}
+			delete(x.gets, int(id64))
+			now := x.clk.Now() // the value the released Get will read: nothing else runs in between
+			out := pg.early
+			if out == "" {
+				close(pg.ev.release)
+				select {
+				case out = <-pg.done:
+				case <-time.After(3 * time.Second):
+					return "timeout"
+				}
+			}
+			x.checkSplitGet(pg, out, now)
+			x.res.Hit("op:gend")
+			return out
+		case "sbegin": // a Set parked between its clock read and its store
+			id64, ok := kv.i64("id")
+			id := int(id64)
+			v, ok1 := kv.i64("v")
+			ttl, ok2 := kv.i64("ttl")
+			if !ok || !ok1 || !ok2 || id <= 0 || v < 0 || x.sets[id] != nil {
+				return "error"
+			}
+			ps := &pendingSet{key: kv["k"], val: int(v), ttl: ttl, at: x.clk.Now(), done: make(chan string, 1)}
+			ready := make(chan struct{})
+			go func() {
+				defer func() {
+					if r := recover(); r != nil {
+						ps.done <- "panic"
+					}
+				}()
+				x.mu.Lock()
+				x.role[goid()] = roleT{"set", id}
+				x.mu.Unlock()
+				close(ready)
+				x.c.Set(ps.key, ps.val, ps.ttl)
+				ps.done <- "ok"
+			}()
+			<-ready
+			select {
+			case ev := <-x.parkCh:
+				if ev.kind != "set" || ev.id != id {
+					x.res.Note(fmt.Sprintf("sched: expected Set %d at the clock, got %s %d", id, ev.kind, ev.id))
+				}
+				ps.ev = ev
+			case out := <-ps.done: // ttl <= 0 panics before the clock is read
+				x.mu.Lock()
+				for g, r := range x.role {
+					if r.kind == "set" && r.id == id {
+						delete(x.role, g)
+					}
+				}
+				x.mu.Unlock()
+				return out
+			case <-time.After(3 * time.Second):
+				return "timeout"
+			}
+			x.sets[id] = ps
+			x.res.Hit("op:sbegin")
+			return "ok"
+		case "send":
+			id64, ok := kv.i64("id")
+			ps := x.sets[int(id64)]
+			if !ok || ps == nil || ps.key != kv["k"] {
+				return "error"
+			}
+			delete(x.sets, int(id64))
+			close(ps.ev.release)
+			select {
+			case out := <-ps.done:
+				// the entry's expiry is stamped from the clock value read at sbegin
+				x.mon.onSet(ps.key, ps.val, ps.ttl, ps.at)
+				x.res.Hit("op:send")
+				return out
+			case <-time.After(3 * time.Second):
+				return "timeout"
+			}
 		case "stopcall": // a concurrent Stop caller
 			id64, ok := kv.i64("id")
 			id := int(id64)
@@ -349,6 +547,44 @@ func (x *schedExec) exec(line string) string {
 	})
 }
 
+// checkSplitGet judges a Get that was parked between its map read and its clock read. By the
+// statement's headline clause a hit must be the value that was current when the map was read and
+// must still be unexpired when the Get returns; a miss is correct if that entry had expired by then.
+// A miss although the key's CURRENT entry is live and was stored after the map read is the
+// get/refresh race (no cleaner involved): reported under its own id.
+func (x *schedExec) checkSplitGet(pg *pendingGet, out string, now time.Time) {
+	r := pg.recAtRead
+	if r != nil && r.unknown {
+		return
+	}
+	hit := strings.HasPrefix(out, "hit")
+	switch {
+	case hit && r == nil:
+		x.res.Violate("get-hit-deleted-or-reset", fmt.Sprintf("split Get(%q) = %s although no entry existed when it read the map", pg.key, out), x.cs)
+	case hit && out != "hit v="+strconv.Itoa(r.val):
+		x.res.Violate("get-returned-superseded-value", fmt.Sprintf("split Get(%q) = %s, the entry current at its map read held %d", pg.key, out, r.val), x.cs)
+	case hit && !live(r, now):
+		x.res.Violate("get-returned-expired-deleted-or-reset-value", fmt.Sprintf("split Get(%q) = %s although that entry had expired when the Get read the clock", pg.key, out), x.cs)
+	case !hit && r != nil && live(r, now) && r.lostBy == "":
+		x.res.Violate("get-missed-live-entry", fmt.Sprintf("split Get(%q) missed although the entry it read (v=%d) was still unexpired", pg.key, r.val), x.cs)
+	}
+	if !hit {
+		cur := x.mon.last[pg.key]
+		if cur != nil && cur != r && !cur.unknown && live(cur, now) && cur.lostBy == "" {
+			x.res.Hit("monitor:miss-by-get/refresh-race")
+			x.res.Violate("get-refresh-race-miss",
+				fmt.Sprintf("Get(%q) read the map (entry v=%v), the key was then refreshed (v=%d, live) and the clock passed the old entry's expiry before the Get read the clock: the Get MISSES a key that was live throughout; no Cleanup/Reset involved", pg.key, valOf(r), cur.val), x.cs)
+		}
+	}
+}
+
+func valOf(r *setRec) any {
+	if r == nil {
+		return "none"
+	}
+	return r.val
+}
+
 // settleBg waits until the periodic goroutine has finished the bulk delete it was released into.
 // There is no hook after Del, so we wait for the goroutine to be blocked in its select again.
 func (x *schedExec) settleBg(_ int64) {
@@ -383,6 +619,21 @@ func (x *schedExec) close() {
 		}
 	}
 	verifhookRelease()
+	for id, pg := range x.gets {
+		if pg.early == "" {
+			close(pg.ev.release)
+			<-pg.done
+		}
+		delete(x.gets, id)
+	}
+	for id, ps := range x.sets {
+		close(ps.ev.release)
+		<-ps.done
+		delete(x.sets, id)
+	}
+	var nilHook *func()
+	x.clk.NowHook.Store(nilHook)
+	x.clk.AfterNowHook.Store(nilHook)
 	// late parks (a pending tick taken after release)
 	stopDone := make(chan struct{})
 	go func() {
@@ -440,6 +691,59 @@ func runSchedLines(cs *Case, res *lib.Result) []string {
 }
 
 const schedCorr = "sched: kitdrv C15 (KitModel.TTLCache.cstep) vs ttlcache.Cache with cleaners parked at verifhook points"
+
+// split Get / Set families (always run): callers parked between map read and clock read (Get) or
+// between clock read and store (Set).
+func splitCases() []*Case {
+	mk := func(lines ...string) *Case {
+		return &Case{Mode: "sched", Lines: append([]string{fmt.Sprintf("cnew max=0 t0=%d iv=%d", t0.UnixNano(), 1000*nsPerSecond)}, lines...)}
+	}
+	adv := func(ns int64) string { return fmt.Sprintf("adv d=%d", ns) }
+	return []*Case{
+		// the get/refresh race: a key that is live throughout is missed
+		mk("set k=a v=1 ttl=1", "gbegin id=1 k=a", "set k=a v=2 ttl=50", adv(2*nsPerSecond), "gend id=1 k=a", "get k=a", "dump", "stop"),
+		// same without refresh: the miss is simply an expiry
+		mk("set k=a v=1 ttl=1", "gbegin id=1 k=a", adv(2*nsPerSecond), "gend id=1 k=a", "stop"),
+		// exactly at the boundary, and 1 ns before
+		mk("set k=a v=1 ttl=1", "gbegin id=1 k=a", adv(nsPerSecond-1), "gend id=1 k=a", "gbegin id=2 k=a", adv(1), "gend id=2 k=a", "stop"),
+		// Delete between map read and clock read: the Get returns the value current at its map read
+		mk("set k=a v=1 ttl=9", "gbegin id=1 k=a", "del k=a", "gend id=1 k=a", "get k=a", "stop"),
+		// overwrite between map read and clock read
+		mk("set k=a v=1 ttl=9", "gbegin id=1 k=a", "set k=a v=2 ttl=9", "gend id=1 k=a", "get k=a", "stop"),
+		// Set parked after its clock read: the expiry is stamped from the earlier clock value
+		mk("sbegin id=1 k=c v=9 ttl=1", adv(2*nsPerSecond), "send id=1 k=c v=9 ttl=1", "get k=c", "dump", "stop"),
+		mk("sbegin id=1 k=c v=9 ttl=3", adv(2*nsPerSecond), "send id=1 k=c v=9 ttl=3", "get k=c", adv(nsPerSecond-1), "get k=c", adv(1), "get k=c", "stop"),
+		// two Sets racing: the later STORE wins whatever the order of the clock reads
+		mk("sbegin id=1 k=d v=1 ttl=5", "set k=d v=2 ttl=5", "send id=1 k=d v=1 ttl=5", "get k=d", "dump", "stop"),
+		// key absent at the map read, set meanwhile: the Get misses (it never reads the clock)
+		mk("gbegin id=1 k=e", "set k=e v=1 ttl=9", "gend id=1 k=e", "get k=e", "stop"),
+		// misuse inside a split Set
+		mk("sbegin id=1 k=d v=1 ttl=0", "get k=d", "stop"),
+		// a cleaner and a split Get/Set interleaved
+		mk("set k=a v=1 ttl=1", adv(2*nsPerSecond), "cbegin id=1 kind=cleanup", "sbegin id=2 k=a v=5 ttl=9", "gbegin id=3 k=a", "send id=2 k=a v=5 ttl=9", "cfinish id=1", "gend id=3 k=a", "get k=a", "dump", "stop"),
+	}
+}
+
+// a concurrent Reset must empty the cache even while a Cleanup is in flight (always run)
+func resetCases() []*Case {
+	first := true
+	mk := func(lines ...string) *Case {
+		iv := 1000 * nsPerSecond
+		if first { // only the first case lets the periodic cleaner tick
+			iv, first = nsPerSecond, false
+		}
+		return &Case{Mode: "sched", Lines: append([]string{fmt.Sprintf("cnew max=0 t0=%d iv=%d", t0.UnixNano(), iv)}, lines...)}
+	}
+	adv := func(ns int64) string { return fmt.Sprintf("adv d=%d", ns) }
+	return []*Case{
+		// periodic cleaner parked at afterSnapshot; Reset; a live key must miss
+		mk("set k=a v=1 ttl=60", "set k=b v=2 ttl=1", adv(2*nsPerSecond), "bgsnap", "cbegin id=1 kind=reset", "cfinish id=1", "get k=a", "get k=b", "dump", "bgfinish", "dump", "stop"),
+		// manual Cleanup parked; Reset; then the Cleanup finishes
+		mk("set k=a v=1 ttl=60", "set k=b v=2 ttl=1", adv(2*nsPerSecond), "cbegin id=1 kind=cleanup", "cbegin id=2 kind=reset", "cfinish id=2", "get k=a", "dump", "cfinish id=1", "stop"),
+		// two Resets in flight
+		mk("set k=a v=1 ttl=60", "cbegin id=1 kind=reset", "cbegin id=2 kind=reset", "cfinish id=2", "get k=a", "set k=a v=2 ttl=60", "cfinish id=1", "get k=a", "stop"),
+	}
+}
 
 // the documented race, written out (always run): the model must predict the miss exactly.
 func raceCases() []*Case {
@@ -515,10 +819,17 @@ func genSched(r *lib.Rand, res *lib.Result, n int) (*Case, []string, *monitor) {
 	curMon = x.mon
 	defer func() { curMon = nil }()
 	var outs []string
+	aborted := false
 	emit := func(l string) string {
+		if aborted {
+			return "aborted"
+		}
 		cs.Lines = append(cs.Lines, l)
 		o := x.exec(l)
 		outs = append(outs, o)
+		if o == "timeout" || o == "error" || o == "returned-without-snapshot" {
+			aborted = true // the real code left the script's schedule: stop here, the diff reports it
+		}
 		return o
 	}
 	cs.Lines = append(cs.Lines, fmt.Sprintf("cnew max=%d t0=%d iv=%d", maxTTL, t0.UnixNano(), iv))
@@ -526,6 +837,11 @@ func genSched(r *lib.Rand, res *lib.Result, n int) (*Case, []string, *monitor) {
 	nk := r.Range(2, 3)
 	val, nextID := 0, 1
 	inflight := []int{}
+	type sp struct {
+		id   int
+		line string
+	}
+	var gsp, ssp []sp
 	afterAdv := func(o string) {
 		if o == "ok tick=sent" && !x.bgParked {
 			emit("bgsnap")
@@ -534,9 +850,33 @@ func genSched(r *lib.Rand, res *lib.Result, n int) (*Case, []string, *monitor) {
 	for i := 0; i < n; i++ {
 		k := keys[r.Intn(nk)]
 		switch p := r.Intn(100); {
-		case p < 25:
+		case p < 20:
 			val++
 			emit(fmt.Sprintf("set k=%s v=%d ttl=%d", k, val, r.Range(1, 5)))
+		case p < 25: // split Set / Get
+			switch q := r.Intn(4); {
+			case q == 0 && len(ssp) < 2:
+				val++
+				args := fmt.Sprintf("id=%d k=%s v=%d ttl=%d", nextID, k, val, r.Range(1, 5))
+				if emit("sbegin "+args) == "ok" {
+					ssp = append(ssp, sp{nextID, "send " + args})
+				}
+				nextID++
+			case q == 1 && len(gsp) < 2:
+				args := fmt.Sprintf("id=%d k=%s", nextID, k)
+				if emit("gbegin "+args) == "ok" {
+					gsp = append(gsp, sp{nextID, "gend " + args})
+				}
+				nextID++
+			case q == 2 && len(ssp) > 0:
+				j := r.Intn(len(ssp))
+				emit(ssp[j].line)
+				ssp = append(ssp[:j], ssp[j+1:]...)
+			case len(gsp) > 0:
+				j := r.Intn(len(gsp))
+				emit(gsp[j].line)
+				gsp = append(gsp[:j], gsp[j+1:]...)
+			}
 		case p < 50:
 			emit("get k=" + k)
 		case p < 55:
@@ -572,10 +912,16 @@ func genSched(r *lib.Rand, res *lib.Result, n int) (*Case, []string, *monitor) {
 			emit("dump")
 		}
 	}
+	for _, q := range ssp {
+		emit(q.line)
+	}
+	for _, q := range gsp {
+		emit(q.line)
+	}
 	for _, id := range inflight {
 		emit(fmt.Sprintf("cfinish id=%d", id))
 	}
-	for x.bgParked {
+	for x.bgParked && !aborted {
 		pending := x.clk.TickPending()
 		emit("bgfinish")
 		if pending {
@@ -602,6 +948,13 @@ func runSched(f lib.Flags, res *lib.Result, drv *lib.Drv, r *lib.Rand) {
 		diff(drv, res, schedCorr, cs, outs)
 		res.Count(strings.Join(cs.Lines, "|"), true)
 		res.Hit("family:forced-documented-race")
+		res.Traces++
+	}
+	for _, cs := range append(splitCases(), resetCases()...) {
+		outs := runSchedLines(cs, res)
+		diff(drv, res, schedCorr, cs, outs)
+		res.Count(strings.Join(cs.Lines, "|"), true)
+		res.Hit("family:forced-split-get/set+reset-during-cleanup")
 		res.Traces++
 	}
 	for _, cs := range stopCases() {
